@@ -340,7 +340,12 @@ def replay(prop, path):
     work = ROOT / ".work" / ("replay-%d" % os.getpid())
     work.mkdir(parents=True, exist_ok=True)
     try:
-        mod.replay(v, work)
+        if v.get("case", {}).get("call") == "refused-edit":
+            from workloads.histories import replay_refused_edit
+
+            replay_refused_edit(v)
+        else:
+            mod.replay(v, work)
     finally:
         shutil.rmtree(work, ignore_errors=True)
     vs = core.REC.violations
